@@ -161,7 +161,26 @@ func genC17(r *rand.Rand, t *Trace, thorough bool) {
 				la := lockExists(dir)
 				ops = append(ops, func(c *Case) { c.N(4).Ints(hs).Ints(codes).B(la) })
 				t.Stat("lock.race")
-			case x < 92: // an open that fails for another reason: the base directory is a file
+			case x < 89: // an open whose directory scan fails after LOCK was created (injected at either scan)
+				h := nextH
+				nextH++
+				site := []string{"provider.initSegmentCounter", "provider.listSegments"}[r.Intn(2)]
+				comet.VerifSetFaultHandler(func(name string) error {
+					if name == site {
+						return fmt.Errorf("injected scan failure")
+					}
+					return nil
+				})
+				st, err := openPlain(dir)
+				comet.VerifSetFaultHandler(nil)
+				code := lockCode(err)
+				if err == nil {
+					handles[h] = st
+				}
+				la := lockExists(dir)
+				ops = append(ops, func(c *Case) { c.N(7).N(h).N(code).B(la) })
+				t.Stat("lock.scan_failure." + site)
+			case x < 93: // an open that fails for another reason: the base directory is a file
 				bad := filepath.Join(work, "stores", fmt.Sprintf("l%d_%d_file", os.Getpid(), storeCaseCounter))
 				os.WriteFile(bad, []byte("x"), 0644)
 				_, err := openPlain(filepath.Join(bad, "sub"))
